@@ -48,6 +48,7 @@ class Model:
         self.insts = []      # (name, formal params [(kind,name)], template/instance name, [args])   args: ("k", K) / ("v", varname)
         self.procs = []      # names
         self.prio = []       # separators between consecutive processes: "," or "<"
+        self.dyn = None      # (position among the templates, has a parameter): a dynamic template DW declared globally and defined there
         # verbatim extra text (used by the differential checks only; expected() does not describe it)
         self.xg = ""         # appended to the global declarations
         self.xs_pre = ""     # system section, before the instantiations
@@ -159,9 +160,27 @@ def node_sym(t, n):
     return t.locs[n[1]].sym() if n[0] == "L" else "_" + t.bps[n[1]]
 
 
+DW_PARAM = "const int[0,3] dk"
+DW_PARAM_TYPE = "(CONSTANT (RANGE (INT) <(CONSTANT:INT 0)> <(CONSTANT:INT 3)>))"
+
+
+def dyn_decl(m):
+    return "" if m.dyn is None else " dynamic DW(%s);" % (DW_PARAM if m.dyn[1] else "")
+
+
+def dyn_guard(m):
+    return ("dk > 0", "(GT (IDENTIFIER dk) (CONSTANT:INT 0))") if m.dyn[1] else ("dl > 0", "(GT (IDENTIFIER dl) (CONSTANT:INT 0))")
+
+
 def render_xml(m, queries=None):
     tpls = []
-    for t in m.tpls:
+    for ti, t in enumerate(m.tpls + [None]):
+        if m.dyn is not None and ti == min(m.dyn[0], len(m.tpls)):
+            tpls.append(X.template("DW", params=DW_PARAM if m.dyn[1] else None, decl="int dl = 77;",
+                                   locations=[X.location("dw0", "DW_A"), X.location("dw1", "DW_B")], init="dw0",
+                                   transitions=[X.transition("dw0", "dw1", guard=dyn_guard(m)[0])]))
+        if t is None:
+            break
         locs = [X.location(l.lid, l.name, inv=lay(m, t_inv(l.inv, l.invstyle)[0]) if l.inv is not None else None,
                            rate=lay(m, t_rate(l.rate)[0]) if l.rate is not None else None,
                            urgent=l.kind == "U", committed=l.kind == "C", rate_first=l.rate_first) for l in t.locs]
@@ -178,7 +197,7 @@ def render_xml(m, queries=None):
                                decl=((("int l1 = %d;" % t.locals) if t.locals is not None else "") + t.xdecl) or None,
                                locations=locs, branchpoints=t.bps, init=t.locs[t.init].lid if t.locs else None,
                                transitions=trs))
-    doc = X.nta(GDECL + (" int gextra = %d;" % m.gextra if m.gextra is not None else "") + m.xg, tpls, m.xs_pre + system_text(m) + m.xs_post, queries)
+    doc = X.nta(GDECL + (" int gextra = %d;" % m.gextra if m.gextra is not None else "") + dyn_decl(m) + m.xg, tpls, m.xs_pre + system_text(m) + m.xs_post, queries)
     if m.graphics:
         import re
         doc = re.sub(r'<location id="([^"]*)">', r'<location id="\1" x="-30" y="40" color="#ff0000">', doc)
@@ -203,8 +222,13 @@ def system_text(m):
 
 
 def render_xta(m, chain=True):
-    s = GDECL + (" int gextra = %d;" % m.gextra if m.gextra is not None else "") + m.xg + "\n"
-    for t in m.tpls:
+    s = GDECL + (" int gextra = %d;" % m.gextra if m.gextra is not None else "") + dyn_decl(m) + m.xg + "\n"
+    for ti, t in enumerate(m.tpls + [None]):
+        if m.dyn is not None and ti == min(m.dyn[0], len(m.tpls)):
+            s += ("process DW(%s) {\nint dl = 77;\nstate DW_A, DW_B;\ninit DW_A;\ntrans\n  DW_A -> DW_B { guard %s; };\n}\n"
+                  % (DW_PARAM if m.dyn[1] else "", dyn_guard(m)[0]))
+        if t is None:
+            break
         s += "process %s(%s) {\n" % (t.name, params_text(t.params))
         if t.locals is not None:
             s += "int l1 = %d;\n" % t.locals
@@ -259,7 +283,11 @@ TRUE = "(CONSTANT:INT 1)"
 
 
 def expected(m, xml=True):
-    d = {"templates": [], "processes": [], "instances": [], "globals_tail": []}
+    d = {"templates": [], "processes": [], "instances": [], "globals_tail": [], "dyn_templates": []}
+    if m.dyn is not None:
+        d["dyn_templates"].append({"name": "DW", "params": [["dk", DW_PARAM_TYPE]] if m.dyn[1] else [], "unbound": 1 if m.dyn[1] else 0,
+                                   "locals": [["dl", "(CONSTANT:INT 77)"]], "locations": ["DW_A", "DW_B"], "init": "DW_A",
+                                   "edges": [["DW_A", "DW_B", dyn_guard(m)[1]]], "is_defined": True})
     d["globals_tail"] = [["g1", "(CONSTANT:INT 901)"], ["g2", "()"], ["ga", "()"], ["gb", "()"], ["gc", "()"], ["gx", "()"],
                          ["c", "()"], ["bc", "()"], ["gxs", "()"], ["gys", "()"]]
     if m.gextra is not None:
@@ -318,7 +346,12 @@ def inst_json(name, inst):
 
 def project(dump, m):
     """the same shape, read from the library's document dump"""
-    d = {"templates": [], "processes": [], "instances": [], "globals_tail": []}
+    d = {"templates": [], "processes": [], "instances": [], "globals_tail": [], "dyn_templates": []}
+    for t in dump.get("dyn_templates", []):
+        d["dyn_templates"].append({"name": t["name"], "params": [[p["name"], p["type"]] for p in t["params"]], "unbound": t["unbound"],
+                                   "locals": [[v["name"], v["init"]] for v in t["decl"]["vars"]],
+                                   "locations": [l["name"] for l in t["locations"]], "init": t["init"],
+                                   "edges": [[e["src"], e["dst"], e["guard"]] for e in t["edges"]], "is_defined": t["is_defined"]})
     gv = dump["globals"]["vars"]
     names = [v["name"] for v in gv]
     start = names.index("g1") if "g1" in names else len(names)
@@ -535,6 +568,10 @@ def build(choose, common=False, bp_base=True):
                 t.edges.append(Edge(("B", 0), ("L", nl - 1), prob=7))
                 t.edges.append(Edge(("B", 0), ("L", 0), prob=8, assign=base + 403))
         m.tpls.append(t)
+    # a dynamic template, declared in the global declarations and defined among the templates
+    dv = choose(4, "dynamic")
+    if dv:
+        m.dyn = ([0, 1, 9][dv - 1], not choose(2, "dynamic.noparam"))
     # system section
     style = choose(3, "system.style")
     t1 = m.tpls[0]
